@@ -42,8 +42,10 @@ def check(ctx: Ctx) -> None:
                 for kw in site.node.keywords:
                     if kw.arg == FLAG:
                         arg = kw.value
-                idx = callee.params.index(FLAG)
-                if arg is None and idx < len(site.node.args) and not any(isinstance(a, ast.Starred) for a in site.node.args):
+                idx = callee.params.index(FLAG) + site.arg_offset
+                if site.how == "ref":
+                    arg = None  # the function object is handed on (e.g. to map): only what the consumer passes positionally arrives
+                elif arg is None and idx < len(site.node.args) and not any(isinstance(a, ast.Starred) for a in site.node.args):
                     arg = site.node.args[idx]
                 ok = isinstance(arg, ast.Name) and arg.id == FLAG
                 what = (f"call edge {caller.name} -> {callee.name}: the callee's parameter '{FLAG}' " +
